@@ -98,6 +98,10 @@ typedef struct cs_scenario {
        by displace_sigmas standard deviations of the declared noise */
     int displace_id;
     double displace_sigmas;
+    /* only at this frequency index + 1 (0 = at every frequency) */
+    int displace_findex1;
+    /* factor on the declared noise per frequency index (0 = 1) */
+    double sigma_fscale[CS_MAXF];
 } cs_scenario;
 
 /* ---- physical model ------------------------------------------------ */
